@@ -39,8 +39,15 @@ Inductive step :=
 | RecvEOF            (* server RecvMsg after the client half-closed *)
 | CHeader            (* client Header() once headers are available *)
 | Ret (r : ret)      (* handler returns; the client learns the outcome *)
+| CtxEnd (dl : bool)
 | Cancel (dl : bool). (* the client's context ends while the client waits in RecvMsg: it is cancelled
                         ([dl] = false) or its deadline expires ([dl] = true) *)
+
+(* [CtxEnd dl] (constructor below, after [Cancel]) is the non-terminal form of [Cancel dl]: the
+   client's context ends in the same way, but the handler then goes on with the actions that follow
+   in the list (SetH / SendH / SetT, S2C = a SendMsg that fails, RecvEOF = a RecvMsg that fails) up
+   to its return [Ret].  What those calls return to the handler is not part of the transcript: on
+   a real connection it depends on whether the stream reset has been processed yet. *)
 
 (* the calling context: still live, cancelled, or past its deadline; ctx.Err() tells the last two apart *)
 Inductive ctxend := CtxLive | CtxCanceled | CtxExpired.
@@ -121,6 +128,8 @@ Definition w_cancelled (s : wst) : bool := match w_ctx s with CtxLive => false |
 Definition ctx_err (c : ctxend) : goerr := match c with CtxExpired => ECtxDeadline | _ => ECtxCanceled end.
 
 Definition w_done (s : wst) : bool := w_closed s || w_cancelled s.       (* <-ctx.Done() ready *)
+(* the client's context has ended, the handler is still running *)
+Definition w_gone (s : wst) : bool := w_cancelled s && negb (w_closed s).
 
 Definition set_header h s := mkW h (w_sent s) (w_trailer s) (w_closed s) (w_closeErr s) (w_ctx s) (w_half s).
 Definition set_sent s := mkW (w_header s) true (w_trailer s) (w_closed s) (w_closeErr s) (w_ctx s) (w_half s).
@@ -200,19 +209,40 @@ Definition w_step (fx : fixes) (sh : shape) (r : wrun) (st : step) : wrun * (lis
       else (r, ([CSent true], [SGot m]))
   | S2C m =>
       let s1 := w_sendHeaderIfNeeded s in
-      if w_done s then (r, stuck)
+      if w_gone s then (mkWR (w_server_send_done fx s) (wr_resp r) false, ([], []))   (* SendMsg fails *)
+      else if w_done s then (r, stuck)
       else (mkWR s1 (negb (ss sh)) false, ([CGot m], [SSent true]))
-  | SetH h => let '(s1, ok) := w_SetHeader fx h s in (mkWR s1 (wr_resp r) false, ([], [SSetH ok]))
-  | SendH h => let '(s1, ok) := w_SendHeader h s in (mkWR s1 (wr_resp r) false, ([], [SSendH ok]))
+  | SetH h => let '(s1, ok) := w_SetHeader fx h s in
+              (mkWR s1 (wr_resp r) false, ([], if w_gone s then [] else [SSetH ok]))
+  | SendH h => let '(s1, ok) := w_SendHeader h s in
+               (mkWR s1 (wr_resp r) false, ([], if w_gone s then [] else [SSendH ok]))
   | SetT t => (mkWR (w_SetTrailer t s) (wr_resp r) false, ([], []))
   | CloseSend => (mkWR (set_half s) (wr_resp r) false, ([CClosed], []))
-  | RecvEOF => if w_half s && negb (w_done s) then (r, ([], [SEof])) else (r, stuck)
+  | RecvEOF =>
+      if w_gone s then (if w_half s then (r, stuck) (* both select cases ready *) else (r, ([], [])))
+      else if w_half s && negb (w_done s) then (r, ([], [SEof])) else (r, stuck)
   | CHeader =>
       match w_Header s with
       | Some h => (r, ([CHdr (canon_md h)], []))
       | None => (r, stuck)
       end
+  | CtxEnd dl =>
+      if w_done s then (r, stuck) else
+      let s1 := set_ctx (ctx_of dl) s in
+      let c := [CEnd (canon (negb (is_invoke sh)) (ss sh) (w_client_recv_idle s1))] in
+      (* Invoke returns at once, with the metadata as it is now; the handler sees its context end *)
+      (mkWR s1 false false, (c ++ (if is_invoke sh then collect_w s1 else []), [SDone true]))
   | Ret rt =>
+      if w_gone s then
+        (* the handler returns after the client has gone: a unary handler's response meets SendMsg on
+           the finished call; Close does not latch anything; a stream client then reads Header()/Trailer() *)
+        let s0 := if srv_has_stream sh then s
+                  else match rt with RetOk _ => w_server_send_done fx s | _ => s end in
+        let e := if srv_has_stream sh then ret_err rt
+                 else match rt with RetOk _ => Some (w_doneErr fx s0) | _ => ret_err rt end in
+        let s1 := w_Close fx e s0 in
+        (mkWR s1 false true, ((if is_invoke sh then [] else epilogue_w s1), []))
+      else
       if srv_has_stream sh then
         (* NewStream's goroutine: err := Handler(...); Close(err) *)
         let s1 := w_Close fx (ret_err rt) s in
